@@ -139,6 +139,11 @@ pub(crate) fn serialize_text<'a, N: Normalizer>(
                 change = true;
                 result.push_str("&lt;")
             }
+            // a literal carriage return is normalized to a newline by the parser
+            '\r' => {
+                change = true;
+                result.push_str("&#13;")
+            }
             '>' if !unescaped_gt => {
                 change = true;
                 result.push_str("&gt;")
@@ -245,6 +250,20 @@ pub(crate) fn serialize_attribute<'a, N: Normalizer>(
             '"' => {
                 change = true;
                 result.push_str("&quot;")
+            }
+            // a literal tab, newline or carriage return in an attribute
+            // value is normalized to a space by the parser
+            '\t' => {
+                change = true;
+                result.push_str("&#9;")
+            }
+            '\n' => {
+                change = true;
+                result.push_str("&#10;")
+            }
+            '\r' => {
+                change = true;
+                result.push_str("&#13;")
             }
             _ => result.push(c),
         }
